@@ -494,3 +494,8 @@ Definition check_scratch (c : trace_case) : bool :=
                          | None => value_eqb (VErr CircularRef) (snd cv)
                          end) finals
   end.
+
+(* the calc changes of an update loop on the cells [cs]: (cell, previous value, new value) for every cell
+   whose value differs between the start and the end (what _changes_map holds at _post_update, up to order) *)
+Definition calc_changes (s fin : state) (cs : list cell) : list (cell * value * value) :=
+  map (fun c => (c, val s c, val fin c)) (filter (fun c => negb (value_eqb (val s c) (val fin c))) cs).
